@@ -514,6 +514,17 @@ def hdrworld_body(ctx, c):
                 flags.add("rejected")
         if link.dropped:
             flags.add("gaps")
+        # the datagram numbers an endpoint puts on the wire advance by one per datagram, 65535 -> 1, never 0
+        last_seq = {}
+        for em in w.net.log[n0:]:
+            if em.key is None:
+                continue
+            h = W.parse_header(em.data)
+            prev = last_seq.get(em.to_server)
+            if h.seq == 0 or (prev is not None and h.seq != ring(prev + 1)):
+                ctx.violation("wire-seq-not-consecutive", "%s datagram #%d carries sequence number %d, the previous one carried %d" % (
+                    "client" if em.to_server else "server", em.i, h.seq, prev if prev is not None else -1))
+            last_seq[em.to_server] = h.seq
     return flags
 
 
